@@ -4,42 +4,40 @@ stdin: JSON list of cases; stdout: JSON list of [escaped(0/1/2), [[who, dir, nod
 import json, sys
 from pydoctor import visitor as V
 
-class T:
+class ClassDef:
+    """node class with upper-case letters in its name: visit_ClassDef / visit_classdef dispatch both apply"""
     def __init__(self, spec):
         self.id = spec[0]
-        self.kids = [T(k) for k in spec[1:]]
+        self.kids = [ClassDef(k) for k in spec[1:]]
+T = ClassDef
 
 ACTIONS = {1: 'SkipChildren', 2: 'SkipSiblings', 3: 'SkipNode', 4: 'SkipDeparture'}
 WHENS = {0: V.When.BEFORE, 1: V.When.AFTER, 2: V.When.INNER, 3: V.When.OUTTER}
+# handler styles: how a participant spells its handlers for the node class `ClassDef`
+STYLES = {0: ('unknown_visit', 'unknown_departure'), 1: ('visit_ClassDef', 'depart_ClassDef'),
+          2: ('visit_classdef', 'depart_classdef')}
 
-def run_case(case):
-    fn, exts, prunes, tree = case
-    trace = []
-    prune = {n: a for n, a in prunes}
+def make_visitor(exts, prune, trace, style):
+    vname, dname = STYLES[style]
+    def main_visit(self, ob):
+        trace.append([0, 0, ob.id])
+        a = prune.get(ob.id, 0)
+        if a:
+            raise getattr(self, ACTIONS[a])()
+    def main_depart(self, ob):
+        trace.append([0, 1, ob.id])
+    Main = type('Main', (V.Visitor,), {
+        'get_children': classmethod(lambda cls, ob: ob.kids), vname: main_visit, dname: main_depart})
+    return Main(V.ExtList(*[make_ext(eid, when, trace, style) for eid, when in exts]))
 
-    class Main(V.Visitor):
-        @classmethod
-        def get_children(cls, ob):
-            return ob.kids
-        def unknown_visit(self, ob):
-            trace.append([0, 0, ob.id])
-            a = prune.get(ob.id, 0)
-            if a:
-                raise getattr(self, ACTIONS[a])()
-        def unknown_departure(self, ob):
-            trace.append([0, 1, ob.id])
+def make_ext(eid, when, trace, style):
+    vname, dname = STYLES[style]
+    return type('E%d' % eid, (V.VisitorExt,), {
+        'when': WHENS[when],
+        vname: (lambda self, ob: trace.append([eid, 0, ob.id])),
+        dname: (lambda self, ob: trace.append([eid, 1, ob.id]))})
 
-    classes = []
-    for eid, when in exts:
-        def mk(eid, when):
-            class E(V.VisitorExt):
-                pass
-            E.when = WHENS[when]
-            E.unknown_visit = lambda self, ob: trace.append([eid, 0, ob.id])
-            E.unknown_departure = lambda self, ob: trace.append([eid, 1, ob.id])
-            return E
-        classes.append(mk(eid, when))
-    m = Main(V.ExtList(*classes))
+def one_walk(m, fn, tree, trace):
     esc = 0
     try:
         if fn == 1:
@@ -49,8 +47,31 @@ def run_case(case):
     except V.Visitor.SkipSiblings:
         esc = 1
     except Exception as e:  # noqa
-        return [2, trace, type(e).__name__]
-    return [esc, trace]
+        return [2, list(trace), type(e).__name__]
+    return [esc, list(trace)]
+
+def run_case(case):
+    if case[0] == 'seq':
+        # ['seq', style, [[fn, exts_added_before_this_walk, prunes, tree], ...]] : ONE visitor, several walks,
+        # extensions registered between the walks (ExtList.add + attach_visitor, as ASTBuilder.processModuleAST does)
+        _, style, steps = case
+        trace = []
+        prune = {}
+        m = make_visitor([], prune, trace, style)
+        out = []
+        for fn, add, prunes, tree in steps:
+            if add:
+                m.extensions.add(*[make_ext(eid, when, trace, style) for eid, when in add])
+                m.extensions.attach_visitor(m)
+            prune.clear(); prune.update({n: a for n, a in prunes})
+            del trace[:]
+            out.append(one_walk(m, fn, tree, trace))
+        return out
+    fn, exts, prunes, tree = case[:4]
+    style = case[4] if len(case) > 4 else 0
+    trace = []
+    m = make_visitor(exts, {n: a for n, a in prunes}, trace, style)
+    return one_walk(m, fn, tree, trace)
 
 if __name__ == '__main__':
     cases = json.load(sys.stdin)
